@@ -13,7 +13,8 @@ PROP = dict(
             "an existing file keeps its mode, group bits are not inspected by the start-up warning); key files with more than 2 keys; partial writes that are not prefixes (out-of-order page write-back after power loss); "
             "system clock before 1970 at store time (store panics by design: expect(\"Could not get current time\"))",
     assumptions=[
-        "c27_load excludes the two regions where the unchanged tree violates the property; they are exhibited by c27_load_kf_primary_eq_len and c27_load_kf_time_overflow (expected to fail)",
+        "none on the file contents: c27_load quantifies over every byte string <= 148 bytes (the two former defect regions, primary == key count and time >= 2^63 s, "
+        "fixed by e6a5d66 / 5b49617, are included and additionally pinned by c27_load_primary_eq_len / c27_load_time_overflow)",
         "c27_usable quantifies over exactly the key sets c27_load can return (1..2 keys, primary < number of keys): composition of the two gives 'whatever loads is usable'",
         _model,
         "try_from specification instead of AesSivCmac512::try_from (proven equal by c26_key_try_from_512, property C26)",
@@ -25,13 +26,13 @@ PROP = dict(
     ],
     extractors=["key_file_mode"],
     harnesses=[
-        H(KS, "c27", "c27_load", "any <=148-byte file: accepted => complete, fields/keys restored verbatim, primary < number of keys (known-finding regions excluded)", timeout=300),
-        H(KS, "c27", "c27_usable_1", "every 1-key set load can return issues cookies and decodes them", timeout=300),
-        H(KS, "c27", "c27_usable_2", "every 2-key set load can return (either key primary) issues cookies and decodes them", timeout=300),
-        H(KS, "c27", "c27_crash_1", "1 key stored: no strict prefix loads; the full file restores the same set and time", timeout=300),
-        H(KS, "c27", "c27_crash_2", "2 keys stored: no strict prefix loads; the full file restores the same set and time", timeout=300),
-        H(KS, "c27", "c27_restore", "cookie issued before store decodes after load", timeout=300),
-        H(KS, "c27", "c27_load_kf_primary_eq_len", "EXPECTED TO FAIL: file with primary == number of keys is accepted and encode_cookie then indexes out of bounds", timeout=300),
-        H(KS, "c27", "c27_load_kf_time_overflow", "EXPECTED TO FAIL: time stamp >= 2^63 s makes load panic (SystemTime + Duration overflow)", timeout=300),
+        H(KS, "c27", "c27_load", "any <=148-byte file: accepted => complete, fields/keys restored verbatim, primary < number of keys; never a panic", timeout=600),
+        H(KS, "c27", "c27_usable_1", "every 1-key set load can return issues cookies and decodes them", timeout=600),
+        H(KS, "c27", "c27_usable_2", "every 2-key set load can return (either key primary) issues cookies and decodes them", timeout=600),
+        H(KS, "c27", "c27_crash_1", "1 key stored: no strict prefix loads; the full file restores the same set and time", timeout=600),
+        H(KS, "c27", "c27_crash_2", "2 keys stored: no strict prefix loads; the full file restores the same set and time", timeout=600),
+        H(KS, "c27", "c27_restore", "cookie issued before store decodes after load", timeout=600),
+        H(KS, "c27", "c27_load_primary_eq_len", "regression (fixed e6a5d66): file with primary == number of keys (0 or 1 keys) is rejected; if accepted the harness issues a cookie (former crash keyset.rs:172)", timeout=600),
+        H(KS, "c27", "c27_load_time_overflow", "regression (fixed 5b49617): header with time stamp >= 2^63 s is rejected without panic (former crash keyset.rs:101)", timeout=600),
     ],
 )
